@@ -525,7 +525,12 @@ class ClientWorldObjectManager:
                 cached_obj = normalize_object_update_compressed_data(cached_obj_data)
                 cached_obj["UpdateFlags"] = update_flags
                 cached_obj["RegionHandle"] = handle
-                self._track_new_object(region_state, Object(**cached_obj), msg)
+                # May be a new version of an object we're already tracking
+                obj = self.lookup_fullid(cached_obj["FullID"])
+                if obj is not None:
+                    self._update_existing_object(obj, cached_obj, ObjectUpdateType.UPDATE, msg)
+                else:
+                    self._track_new_object(region_state, Object(**cached_obj), msg)
                 continue
 
             # Don't know about it and wasn't cached.
